@@ -346,6 +346,38 @@ impl<T: Qcow2IoOps> Qcow2Dev<T> {
         }
     }
 
+    /// If the entry of `split` is a zero cluster with a preallocation, turn
+    /// it into a normal mapping of that very host cluster. Whatever the
+    /// preallocated cluster holds must neither become visible nor survive a
+    /// crash once the zero flag is gone, so it is zeroed durably first.
+    async fn reuse_preallocation(
+        &self,
+        split: &SplitGuestOffset,
+        l2_table: &mut LockWriteGuard<L2Table>,
+    ) -> Qcow2Result<bool> {
+        let info = &self.info;
+        let entry = l2_table.get_entry(info, split);
+
+        if entry.is_compressed() || !entry.is_zero() || !entry.is_copied() {
+            return Ok(false);
+        }
+
+        match entry.allocation(info.cluster_bits() as u32) {
+            Some((host_off, 1)) => {
+                self.call_fallocate(
+                    host_off,
+                    info.cluster_size(),
+                    Qcow2OpsFlags::FALLOCATE_ZERO_RANGE,
+                )
+                .await?;
+                self.call_fsync(host_off, info.cluster_size(), 0).await?;
+                let _ = l2_table.map_cluster(split.l2_slice_index(info), host_off);
+                Ok(true)
+            }
+            _ => Ok(false),
+        }
+    }
+
     #[inline]
     async fn alloc_and_map_cluster(
         &self,
@@ -353,6 +385,14 @@ impl<T: Qcow2IoOps> Qcow2Dev<T> {
         l2_table: &mut LockWriteGuard<L2Table>,
     ) -> Qcow2Result<Mapping> {
         let info = &self.info;
+
+        // a zero cluster may carry a preallocation: write into that cluster
+        // instead of mapping a new one, otherwise it stays allocated without
+        // any user
+        if self.reuse_preallocation(split, l2_table).await? {
+            return Ok(l2_table.get_mapping(info, split));
+        }
+
         let allocated = self.allocate_cluster().await?;
         match allocated {
             Some(res) => {
@@ -434,6 +474,20 @@ impl<T: Qcow2IoOps> Qcow2Dev<T> {
                 start + (((info.l2_slice_entries - l2_slice_idx) as u64) << info.cluster_bits()),
             )
         };
+
+        // zero clusters with a preallocation keep their host cluster
+        let mut reused = false;
+        for this_off in (start..end).step_by(cls_size as usize) {
+            let s = SplitGuestOffset(this_off);
+
+            if self.reuse_preallocation(&s, &mut l2_table).await? {
+                reused = true;
+            }
+        }
+        if reused {
+            l2_handle.set_dirty(true);
+            self.mark_need_flush(true);
+        }
 
         // figure out how many clusters to allocate for write
         let mut nr_clusters = 0;
